@@ -1,4 +1,5 @@
 """Helpers shared by the property modules."""
+import extract
 from scope import Scope
 from sites import BodySites
 
@@ -6,12 +7,16 @@ from sites import BodySites
 def scopes(ctx, with_catalogue=True, configs=None):
     """yield (label, Scope, local crate names) for every fact set the tier covers"""
     out = []
+    done_default = False
     if with_catalogue:
-        c = ctx.corpus("catalogue")
-        out.append(("catalogue+lib/default", Scope([c["deserr"], c["deserr_catalogue"]]), {"deserr", "deserr_catalogue"}))
-        done_default = True
-    else:
-        done_default = False
+        try:
+            c = ctx.corpus("catalogue")
+            out.append(("catalogue+lib/default", Scope([c["deserr"], c["deserr_catalogue"]]), {"deserr", "deserr_catalogue"}))
+            done_default = True
+        except extract.CorpusBuildFailed as e:
+            # the derive no longer produces compiling code for (part of) the catalogue: that is reported by the
+            # derive properties C07-C11 (CORPUS.BUILD); the library-level part of this property is still decided
+            ctx.degraded = "derive catalogue does not build (%s): only the hand-written library impls were analysed" % (e.first_errors(1)[0][:1] or ["?"])[0][:160]
     for cfg in (configs if configs is not None else ctx.lib_configs()):
         if cfg == "default" and done_default:
             continue
